@@ -165,6 +165,9 @@ def main(modname, argv=None):
             return 1
         return 0
 
+    if not os.environ.get("VX_NO_LOADER"):
+        from symx import loader
+        loader.install()      # the parent only enumerates jobs; replays run in a separate clean interpreter
     jobs = mod.jobs(a.tier, seed)
     if a.only:
         jobs = [j for j in jobs if a.only in j["name"]]
